@@ -10,11 +10,18 @@ Open Scope Q_scope.
 
 Definition sumP (f : nat * nat -> Q) (l : list (nat * nat)) : Q := fold_right (fun c acc => f c + acc) 0 l.
 
-(* i, j = np.where(np.triu(CIJ, 1) > 0)   (flag 0)      i, j = np.where(CIJ > 0)   (flags 1-4); row-major order *)
+(* assortativity_wei: i, j = np.where(np.triu(CIJ, 1) > 0)   (flag 0)      i, j = np.where(CIJ > 0)   (flags 1-4); row-major order *)
 Definition edges_triu (n : nat) (CIJ : mat Q) : list (nat * nat) :=
   filter (fun c => Nat.ltb (fst c) (snd c) && Qltb 0 (CIJ (fst c) (snd c)))%bool (cells n).
 Definition edges_all (n : nat) (CIJ : mat Q) : list (nat * nat) :=
   filter (fun c => Qltb 0 (CIJ (fst c) (snd c))) (cells n).
+
+(* assortativity_bin after the repair (`!= 0` instead of `> 0`: every weight is ignored, negative ones included):
+   i, j = np.where(np.triu(CIJ, 1) != 0)   (flag 0)      i, j = np.where(CIJ != 0)   (flags 1-4) *)
+Definition edges_triu_nz (n : nat) (CIJ : mat Q) : list (nat * nat) :=
+  filter (fun c => Nat.ltb (fst c) (snd c) && negb (Qeq_bool (CIJ (fst c) (snd c)) 0))%bool (cells n).
+Definition edges_all_nz (n : nat) (CIJ : mat Q) : list (nat * nat) :=
+  filter (fun c => negb (Qeq_bool (CIJ (fst c) (snd c)) 0)) (cells n).
 
 (* # compute assortativity: the last four statements, the same text in both routines *)
 Definition assort_core (E : list (nat * nat)) (di dj : vec Q) : option Q :=
@@ -32,11 +39,11 @@ Definition assortativity_bin (n : nat) (CIJ : mat Q) (flag : nat) : option Q :=
   let id := fun v => fst (fst (degrees_dir n CIJ v)) in
   let od := fun v => snd (fst (degrees_dir n CIJ v)) in
   match flag with
-  | 0%nat => assort_core (edges_triu n CIJ) deg deg
-  | 1%nat => assort_core (edges_all n CIJ) od id
-  | 2%nat => assort_core (edges_all n CIJ) id od
-  | 3%nat => assort_core (edges_all n CIJ) od od
-  | 4%nat => assort_core (edges_all n CIJ) id id
+  | 0%nat => assort_core (edges_triu_nz n CIJ) deg deg
+  | 1%nat => assort_core (edges_all_nz n CIJ) od id
+  | 2%nat => assort_core (edges_all_nz n CIJ) id od
+  | 3%nat => assort_core (edges_all_nz n CIJ) od od
+  | 4%nat => assort_core (edges_all_nz n CIJ) id id
   | _ => None
   end.
 
